@@ -1,10 +1,10 @@
-\* totality (simulation): random strings of length 6..9 over the dangerous alphabet
+\* totality (simulation): random strings of length 5..9 over the dangerous alphabet
 SPECIFICATION Spec
 CONSTANTS
   Pieces <- DangerPieces
   PieceSep <- SepNone
   MaxPieces = 9
-  MinPieces = 6
+  MinPieces = 5
   CheckKinds = FALSE
 INVARIANTS TypeOK ExactlyOne RoundTrip PrintedIsLexable MunchOK
 CONSTRAINT Emit
